@@ -1,5 +1,6 @@
 import StepModel.GenPy
 import StepModel.GenPyPass
+import StepModel.GenPyOrder
 /-!
 # C18 — exp2python emits a module that mirrors the schema
 
@@ -401,5 +402,54 @@ theorem C18_single_schema_one_module (name : String) (os order : List Pass.Obj) 
   have h : Pass.Good Pass.initial := ⟨fun k => by simp [Pass.initial], rfl⟩
   have := (Pass.sweeps_good os order n _ h).2
   simp [Pass.filesOf, this]
+
+/-! ## emission order of the defined types -/
+
+namespace Order
+
+theorem scan_respects (ts done : List DT) (h : RespectsOriginals done) : RespectsOriginals (scan done ts) := by
+  induction ts generalizing done with
+  | nil => exact h
+  | cons t ts ih =>
+    simp only [scan]
+    split
+    · exact ih done h
+    · cases hh : t.head with
+      | none =>
+        simp only
+        apply ih
+        exact ⟨fun x hx => (by rw [hh] at hx; cases hx), h⟩
+      | some o =>
+        simp only
+        split
+        · rename_i hw
+          apply ih
+          exact ⟨fun x hx => (by rw [hh] at hx; cases hx; exact hw), h⟩
+        · exact ih done h
+
+theorem scans_respects (order : List DT) (n : Nat) (done : List DT) (h : RespectsOriginals done) :
+    RespectsOriginals (scans order n done) := by
+  induction n generalizing done with
+  | zero => exact h
+  | succ n ih => exact ih _ (scan_respects order done h)
+
+end Order
+
+/-- Emission order of the defined types: for every set of defined types and every symbol-table (hash) order, each type is
+written after the type it renames — so every `class t(original)` statement finds its base class.  Depends on the
+regenerated `typeRescan` (the rescan loop of `SCOPEPrint`). -/
+theorem C18_defined_types_written_after_their_original (order : List Order.DT) :
+    Order.RespectsOriginals (Order.emitted order) := by
+  unfold Order.emitted
+  simp only [typeRescan, if_true]
+  exact Order.scans_respects order _ [] trivial
+
+/-- Without the rescan (seeded C18-b1) a chain `label <- short_label <- text` that leaves the dictionary most-derived
+first is written `text` before `short_label`: `class text(short_label)` raises NameError at import. -/
+theorem C18_single_scan_order_witness :
+    (Order.leftovers (Order.scan [] [⟨"text", some "short_label"⟩, ⟨"short_label", some "label"⟩, ⟨"label", none⟩])
+      [⟨"text", some "short_label"⟩, ⟨"short_label", some "label"⟩, ⟨"label", none⟩]).reverse.map (·.name)
+      = ["label", "text", "short_label"] := by
+  decide
 
 end StepModel.GenPy
